@@ -200,10 +200,11 @@ def run(case):
                     out.fired["line-dup"] += 1
                     out.probes["dup-line"] += 1
                 else:
-                    j = _pick(lines, "frac", fr2)
-                    if i == j:
-                        j = (i + 1) % len(idx)
-                    if len(idx) >= 2:
+                    # both lines in the same 64 KiB page: a line of the base tag type moved to the front of
+                    # a later load group would legitimately start a new section
+                    same = [k for k in range(len(idx)) if lines[k]["type"] == lines[i]["type"] and k != i]
+                    j = same[int(fr2 * len(same)) % len(same)] if same else i
+                    if same:
                         items[idx[i]], items[idx[j]] = items[idx[j]], items[idx[i]]
                         out.fired["line-swap"] += 1
                         out.probes["swap-lines"] += 1
